@@ -82,6 +82,17 @@ def eval_call(eng, e, st):
             if fn == "rsa_ok":
                 return [(st, VBool(smt.rsa_ok(_box(vals[0]), ct)))]
             return [(st, VSeq(smt.rsa_pt(_box(vals[0]), ct), "bytes"))]
+        if fn == "same" and fn not in st.env:
+            from .values import box as _bx
+
+            def raw(node):
+                # list[index]: the raw boxed element term (no unbox / re-box round trip)
+                if isinstance(node, ast.Subscript) and not isinstance(node.slice, ast.Slice):
+                    base = eng.deref(st, eng.ev1(node.value, st))
+                    if isinstance(base, VList):
+                        return VS.at(base.t, eng.as_int(st, eng.ev1(node.slice, st)))
+                return _bx(eng.deref(st, eng.ev1(node, st)))
+            return [(st, VBool(raw(e.args[0]) == raw(e.args[1])))]
         if fn == "xview" and fn not in st.env:
             E_ = eng.as_iseq(st, eng.ev1(e.args[0], st)).t
             o_ = eng.as_int(st, eng.ev1(e.args[1], st))
